@@ -3,4 +3,6 @@
 pub mod c18;
 pub mod c25;
 pub mod c26;
+pub mod c28;
+pub mod c29;
 #[cfg(kani)] pub mod fold_probe;
